@@ -1226,3 +1226,6 @@ def replay(data):
         return not (evaluate([(1, cli_term(s_, s_["obs"], False))], False)[0] & 2)
     print("replay: unknown input type", t)
     return False
+
+# session-7 addition to the claimed level (MANIFEST text only)
+LEVEL_TEXT = LEVEL_TEXT + " " + "Props/R_container.v: the bin / raw / WAV containers of the reference assembler's image parse or demodulate back to (base, length, name, image, checksum) (partial: image bytes in 0..255 and image < 64 KiB are explicit hypotheses; the base range is proved)."
